@@ -232,6 +232,12 @@ fn run_with_conts(lines: &[String], probe: &str) -> Result<Option<(Vec<String>, 
                 return None;
             }
             parts.push(render_impl(&part).0);
+            // a run that ended in an error is over: CONT after an error is not part of this property
+            if part.iter().any(|e| matches!(e, Ev::Err(v) if v.iter().any(|x| x.code != "BREAK" && x.code != "REDO FROM START"))) {
+                s.enter(probe);
+                let (vars, _) = render_impl(&s.take());
+                return Some((parts, vars));
+            }
             s.enter("CONT");
             // finished when CONT cannot continue
             if s.ev.iter().any(|e| matches!(e, Ev::Err(v) if v.len() == 1 && v[0].code == "CAN'T CONTINUE")) {
@@ -641,6 +647,7 @@ impl Check for C13 {
                 psweep(1, Level::Full, mid),
                 psweep(2, Level::Medium, light),
                 psweep(3, Level::Core, light),
+                psweep(2, Level::Mixed, light),
             ],
             Tier::Thorough => vec![
                 Box::new(Curated { d: deep }),
@@ -648,14 +655,16 @@ impl Check for C13 {
                 psweep(2, Level::Full, mid),
                 psweep(3, Level::Medium, light),
                 psweep(4, Level::Core, light),
+                psweep(2, Level::Mixed, mid),
+                psweep(3, Level::Mixed, light),
             ],
         }
     }
     fn meta(&self, tier: Tier) -> Meta {
         Meta {
             bound: match tier {
-                Tier::Quick => "16 curated programs (INPUT, INKEY$, LIST inside the program, READ/DATA in a loop, GOSUB out of a loop, ...) and all N=1 programs (full alphabet): interrupt after every k-th single-instruction call (k<=160, also at a pending prompt) with and without a direct PRINT before CONT, STOP and END before every statement, uniform quanta 2..48 and 5000, all two-phase schedules over {1,2,3,7,5000} with switch points 1..12, all mixed schedules over {1,2,3} of length <=3, macro-step confluence on the state digest for quanta {1,2,3,5,8,5000}; N=2 medium and N=3 core programs with k<=40 and mixed schedules of length <=2".into(),
-                Tier::Thorough => "as quick with mixed schedules up to length 6 on curated and N=1, N=2 full with length 3 and macro-steps, N=3 medium and N=4 core light".into(),
+                Tier::Quick => "16 curated programs (INPUT, INKEY$, LIST inside the program, READ/DATA in a loop, GOSUB out of a loop, ...) and all N=1 programs (full alphabet): interrupt after every k-th single-instruction call (k<=160, also at a pending prompt) with and without a direct PRINT before CONT, STOP and END before every statement, uniform quanta 2..48 and 5000, all two-phase schedules over {1,2,3,7,5000} with switch points 1..12, all mixed schedules over {1,2,3} of length <=3, macro-step confluence on the state digest for quanta {1,2,3,5,8,5000}; N=2 medium, N=3 core and N=2 mixed-feature (DATA/READ/RESTORE, DEF FN, arrays, strings, SWAP, CLEAR, ERASE, INPUT) programs with k<=40 and mixed schedules of length <=2".into(),
+                Tier::Thorough => "as quick with mixed schedules up to length 6 on curated and N=1, N=2 full with length 3 and macro-steps, N=3 medium and N=4 core light, N=2 mixed-feature with length 3 and macro-steps, N=3 mixed-feature light".into(),
             },
             rule: "a case is (program, interruption point | STOP/END placement | quantum schedule | macro-step); distinct_nontrivial = distinct (perturbation, baseline transcript) pairs; cases beyond the end of a program's run are not counted".into(),
             states_note: "states = distinct full-state digests reached at macro-step boundaries; transitions = macro-steps executed under the six quanta (differential, implementation vs implementation)".into(),
